@@ -184,6 +184,94 @@ func runC16(c *core.Ctx) {
 	for i := 0; i < N/3; i++ {
 		c16Flat(res, rng, i)
 	}
+	for i := 0; i < N/4; i++ {
+		c16SameName(res, rng, i)
+	}
+}
+
+// Two DIFFERENT struct types that are indistinguishable by name: anonymous struct types (empty name)
+// and two function-local types both called Item. A rule set registered for one of them must not
+// reach the other.
+type c16AnonHolder struct {
+	A1 struct {
+		Name string `valid:"to=1~3|tag_a1_name"`
+	} `valid:"exist"`
+	A2 struct {
+		Name string `valid:"to=1~3|tag_a2_name"`
+		X    int
+	} `valid:"exist"`
+	I1 interface{} `valid:"exist"`
+}
+
+func c16LocalItem1() (interface{}, reflect.Type) {
+	type Item struct {
+		Name string `valid:"to=1~3|tag_item1_name"`
+	}
+	return &Item{}, reflect.TypeOf(Item{})
+}
+
+func c16LocalItem2() (interface{}, reflect.Type) {
+	type Item struct {
+		Name string `valid:"to=1~3|tag_item2_name"`
+		Y    int
+	}
+	return &Item{}, reflect.TypeOf(Item{})
+}
+
+func c16SameName(res *core.Result, rng *rand.Rand, idx int) {
+	env := &ref.Env{Tag: "valid", Scoped: map[reflect.Type]map[string]string{}}
+	var in interface{}
+	var tok interface{}
+	which := ""
+	rm := map[string]string{"Name": fmt.Sprintf("to=%d~%d|sc_same_%d", 1+rng.Intn(2), 4+rng.Intn(4), idx)}
+	if rng.Intn(2) == 0 {
+		h := &c16AnonHolder{}
+		h.A1.Name, h.A2.Name, h.A2.X = c16Str(rng), c16Str(rng), 1
+		if h.A1.Name == "" {
+			h.A1.Name = "abcdefghi"
+		}
+		if h.A2.Name == "" {
+			h.A2.Name = "abcdefghi"
+		}
+		in, which = h, "anonymous"
+		if rng.Intn(2) == 0 {
+			tok = h.A1
+			env.Scoped[reflect.TypeOf(h.A1)] = rm
+		} else {
+			tok = &h.A2
+			env.Scoped[reflect.TypeOf(h.A2)] = rm
+		}
+	} else {
+		// a slice holding values of both local Item types behind pointers is not expressible in one
+		// static type; use a holder struct synthesised at run time
+		p1, t1 := c16LocalItem1()
+		p2, t2 := c16LocalItem2()
+		ht := reflect.StructOf([]reflect.StructField{
+			{Name: "P1", Type: reflect.PointerTo(t1), Tag: `valid:"exist"`},
+			{Name: "P2", Type: reflect.PointerTo(t2), Tag: `valid:"exist"`},
+		})
+		hv := reflect.New(ht)
+		reflect.ValueOf(p1).Elem().Field(0).SetString("abcdefghi"[:1+rng.Intn(9)])
+		reflect.ValueOf(p2).Elem().Field(0).SetString("abcdefghi"[:1+rng.Intn(9)])
+		reflect.ValueOf(p2).Elem().Field(1).SetInt(1)
+		hv.Elem().Field(0).Set(reflect.ValueOf(p1))
+		hv.Elem().Field(1).Set(reflect.ValueOf(p2))
+		in, which = hv.Interface(), "same-local-name"
+		if rng.Intn(2) == 0 {
+			tok = p1
+			env.Scoped[t1] = rm
+		} else {
+			tok = p2
+			env.Scoped[t2] = rm
+		}
+	}
+	res.Count("same_name_types|" + which)
+	exps, entryErr := env.ExpectStruct(in)
+	out := drive.Call(func() error { return valid.NewVStruct().SetRule(toRM(rm), tok).Valid(in) })
+	wit := vWitness{Entry: "chain/same-name/" + which, Type: fmt.Sprintf("%T", in), Value: describeValue(reflect.ValueOf(in)), Rules: map[string]interface{}{"scoped": rm, "registered_for": fmt.Sprintf("%T", tok)}}
+	if judged, _ := compareCall(res, "C16|same-name|"+which, "", out, exps, entryErr, env, true, wit); judged {
+		res.Distinct(fmt.Sprint("same", which, wit.Value, rm, wit.Rules))
+	}
 }
 
 // c16Flat: the same function resolution order through the single-value, map and URL validators.
@@ -341,9 +429,12 @@ func c16Case(res *core.Result, rng *rand.Rand, idx int) {
 			vs.SetRule(toRM(scOuter), &C16Outer{})
 		}
 		if scInner != nil {
-			if rng.Intn(2) == 0 {
-				vs.SetRule(toRM(scInner), C16Inner{}) // value and pointer name the same type
-			} else {
+			switch rng.Intn(3) {
+			case 0:
+				vs.SetRule(toRM(scInner), C16Inner{}) // value, pointer and typed nil pointer name the same type
+			case 1:
+				vs.SetRule(toRM(scInner), (*C16Inner)(nil))
+			default:
 				vs.SetRule(toRM(scInner), &C16Inner{})
 			}
 		}
@@ -385,7 +476,11 @@ func c16Case(res *core.Result, rng *rand.Rand, idx int) {
 			rmap[&C16Outer{}] = toRM(scOuter)
 		}
 		if scInner != nil {
-			rmap[&C16Inner{}] = toRM(scInner)
+			if rng.Intn(3) == 0 {
+				rmap[(*C16Inner)(nil)] = toRM(scInner)
+			} else {
+				rmap[&C16Inner{}] = toRM(scInner)
+			}
 		}
 		if scOther != nil {
 			rmap[&C16Other{}] = toRM(scOther)
